@@ -108,27 +108,35 @@ pub fn st_push_multiple(_r: &mut diagn::Report, msgs: Vec<diagn::Message>) {
 }
 pub fn st_error<S: Into<String>>(_r: &mut diagn::Report, _d: S) {
     record(0, 0);
+    std::mem::forget(_d);
 }
 pub fn st_error_span<S: Into<String>>(_r: &mut diagn::Report, _d: S, _s: diagn::Span) {
     record(0, 0);
+    std::mem::forget(_d);
 }
 pub fn st_warning<S: Into<String>>(_r: &mut diagn::Report, _d: S) {
     record(1, 0);
+    std::mem::forget(_d);
 }
 pub fn st_warning_span<S: Into<String>>(_r: &mut diagn::Report, _d: S, _s: diagn::Span) {
     record(1, 0);
+    std::mem::forget(_d);
 }
 pub fn st_note<S: Into<String>>(_r: &mut diagn::Report, _d: S) {
     record(2, 0);
+    std::mem::forget(_d);
 }
 pub fn st_note_span<S: Into<String>>(_r: &mut diagn::Report, _d: S, _s: diagn::Span) {
     record(2, 0);
+    std::mem::forget(_d);
 }
 pub fn st_push_parent<S: Into<String>>(_r: &mut diagn::Report, _d: S, _s: diagn::Span) {
     push_kind(0);
+    std::mem::forget(_d);
 }
 pub fn st_push_parent_note<S: Into<String>>(_r: &mut diagn::Report, _d: S, _s: diagn::Span) {
     push_kind(2);
+    std::mem::forget(_d);
 }
 pub fn st_pop_parent(_r: &mut diagn::Report) {
     unsafe {
@@ -212,52 +220,79 @@ macro_rules! modelled {
 // ------------------------------------------------------------------ BitStore model
 
 /// customasm's wrappers util::BigInt::{get_bit,set_bit} over num-bigint cost 53 GB for
-/// a 4-bit write. Model: every BigInt is identified by address; up to 2 registered
-/// "source" integers with known bits, everything else shares one zero-initialised
-/// 128-bit destination array.
+/// a 4-bit write through the real num-bigint. Model of the *bit store behind the two
+/// wrappers*: `set_bit` writes into one zero-initialised 128-bit destination array and
+/// remembers which BigInt object owns it (the object last written to); `get_bit` on
+/// the owner reads the array, on any other object reads bit `index` of its real value
+/// (two's complement, value must fit i64). A written object must not be moved before it
+/// is read through get_bit again; harnesses read the array directly (`dst_bit`).
 pub static mut DST: [bool; 128] = [false; 128];
-pub static mut SRC_ADDR: [usize; 2] = [0; 2];
-pub static mut SRC_BITS: [u64; 2] = [0; 2];
-pub static mut SRC_NEG: [bool; 2] = [false; 2];
+pub static mut DST_OWNER: usize = 0;
+pub static mut DST_WRITES: usize = 0;
 
 pub fn reset_bitstore() {
     unsafe {
         DST = [false; 128];
-        SRC_ADDR = [0; 2];
-    }
-}
-pub fn register_src(slot: usize, v: &BigInt, bits: i64) {
-    unsafe {
-        SRC_ADDR[slot] = v as *const BigInt as usize;
-        SRC_BITS[slot] = bits as u64;
-        SRC_NEG[slot] = bits < 0;
+        DST_OWNER = 0;
+        DST_WRITES = 0;
     }
 }
 pub fn st_get_bit(this: &BigInt, index: usize) -> bool {
     unsafe {
         let a = this as *const BigInt as usize;
-        let mut k = 0;
-        while k < 2 {
-            if SRC_ADDR[k] != 0 && SRC_ADDR[k] == a {
-                return if index < 64 { (SRC_BITS[k] >> index) & 1 == 1 } else { SRC_NEG[k] };
-            }
-            k += 1;
+        if a == DST_OWNER {
+            return if index < 128 { DST[index] } else { false };
         }
-        if index < 128 {
-            DST[index]
-        } else {
+    }
+    match this.maybe_into::<i64>() {
+        Some(v) => {
+            if index < 63 {
+                (v >> index) & 1 == 1
+            } else {
+                v < 0
+            }
+        }
+        None => {
+            kani::assume(false);
             false
         }
     }
 }
-pub fn st_set_bit(_this: &mut BigInt, index: usize, value: bool) {
+pub fn st_set_bit(this: &mut BigInt, index: usize, value: bool) {
     unsafe {
+        let a = this as *const BigInt as usize;
+        if DST_OWNER != a {
+            // a fresh destination (customasm always starts from BigInt::from(0))
+            DST = [false; 128];
+            DST_OWNER = a;
+        }
         assert!(index < 128, "bitstore model: write beyond 128 bits");
         DST[index] = value;
+        DST_WRITES += 1;
     }
 }
-pub fn dst_bit(index: usize) -> bool {
-    unsafe { DST[index] }
+/// Bit `index` of the last written destination (model) or of `x` itself (native replay).
+pub fn dst_bit(x: &BigInt, index: usize) -> bool {
+    unsafe {
+        if DST_OWNER != 0 {
+            DST[index]
+        } else {
+            x.get_bit(index)
+        }
+    }
+}
+
+/// Attaches the BitStore model in addition to `modelled!`.
+#[macro_export]
+macro_rules! modelled_bits {
+    ($(#[$m:meta])* fn $name:ident() $body:block) => {
+        modelled! {
+            #[kani::stub(customasm::util::BigInt::get_bit, crate::model::st_get_bit)]
+            #[kani::stub(customasm::util::BigInt::set_bit, crate::model::st_set_bit)]
+            $(#[$m])*
+            fn $name() $body
+        }
+    };
 }
 
 // ------------------------------------------------------------------ Arith model
@@ -297,6 +332,21 @@ pub fn st_mod(a: &BigInt, r: &mut diagn::Report, _s: diagn::Span, b: &BigInt) ->
         return Err(());
     }
     Ok(BigInt::new(x % y, None))
+}
+
+/// Contract of util::BigInt::slice(left, right) over machine integers: bits right..left-1
+/// of the two's-complement value as a non-negative number of size left-right. The real
+/// slice is checked against this contract in c05 (BitStore model); step harnesses use the
+/// contract so that the sliced result keeps a real value that later comparisons can read.
+pub fn st_slice(this: &BigInt, left: usize, right: usize) -> BigInt {
+    if left < right {
+        panic!("invalid slice range");
+    }
+    let v = to_i64(this);
+    let w = left - right;
+    kani::assume(w <= 62 && right <= 62);
+    let r = ((v >> right) as u64) & ((1u64 << w) - 1);
+    BigInt::new(r, Some(w))
 }
 
 // ------------------------------------------------------------------ environment
